@@ -19,7 +19,9 @@ open Bpmn.Driver Bpmn.Model.ProcessSet
 def faithful : Cfg :=
   { subBeforeStart := Bpmn.Gen.C18.watcherSubscribesBeforeStart.getD false
     instSubBeforeStart := Bpmn.Gen.C18.instWatcherSubscribesBeforeStart.getD false
-    closeOnce := Bpmn.Gen.C18.doneClosedOnce.getD false }
+    closeOnce := Bpmn.Gen.C18.doneClosedOnce.getD false
+    addBeforeStart := Bpmn.Gen.C18.wgAddBeforeStart.getD false
+    instAddBeforeStart := Bpmn.Gen.C18.instWgAddBeforeStart.getD false }
 
 inductive Item where
   | startAll
@@ -44,14 +46,21 @@ structure Case where
   notes : List String := []
   bad : List String := []
 
-def normTok (t : String) : String :=
+def normTok1 (t : String) : String :=
   match t.toList with
   | 'F' :: rest =>
     let ds := rest.takeWhile Char.isDigit
     if ds.isEmpty then t else String.ofList ('F' :: rest.drop ds.length)
   | _ => t
 
-def normLine (ws : List String) : String := " ".intercalate (ws.map normTok)
+/-- flow ids are numbered per run: `F12:e0_f1,F13:e0_f2` ↦ `F:e0_f1,F:e0_f2` -/
+def normTok (t : String) : String := ",".intercalate ((t.splitOn ",").map normTok1)
+
+/-- flow ids are renumbered; the occurrence number of a task request counts per node across all instances of a run -/
+def normLine (ws : List String) : String :=
+  match ws with
+  | "task" :: n :: _occ :: rest => " ".intercalate ("task" :: n :: "_" :: rest)
+  | _ => " ".intercalate (ws.map normTok)
 
 def Case.kindOf (c : Case) (n : String) : String := ((c.nodes.find? (·.2.1 == n)).map (·.2.2)).getD ""
 def Case.pidOfNode (c : Case) (n : String) : String := ((c.nodes.find? (·.2.1 == n)).map (·.1)).getD ""
@@ -190,8 +199,10 @@ def Case.specFindings (c : Case) : List Finding := Id.run do
       let execOpen := open_.filter (fun l => c.execPids.contains (pidOfLabel l))
       let instOpen := open_.filter (fun l => !c.execPids.contains (pidOfLabel l))
       -- throws whose instantiation has not shown up yet
+      -- (a throw that is never delivered at all is reported as lost, not here)
       let pendingInst := c.waitPids.filter (fun p =>
-        (throwsToStart.filter (·.2 == p)).length > (seen.filter (pidOfLabel · == p)).length)
+        min (throwsToStart.filter (·.2 == p)).length (c.labels.filter (pidOfLabel · == p)).length
+          > (seen.filter (pidOfLabel · == p)).length)
       if !execOpen.isEmpty then
         out := out ++ [⟨"early_exec", s!"wait {n + 1} returned true while {execOpen} had not completed"⟩]
       if !instOpen.isEmpty || !pendingInst.isEmpty then
@@ -244,7 +255,8 @@ def Case.specFindings (c : Case) : List Finding := Id.run do
             out := out ++ [⟨"lost", s!"{throwAfter} throw(s) of {a} while {b} of {l} was listening, and it was never woken"⟩]
   -- each member behaves as it does alone (compared once it has completed)
   for l in labs do
-    if c.hasCease l then
+    -- (a process whose completion monitor missed its own start never ceases, alone or in a set: that is C02's)
+    if c.hasCease l && (c.alone.any (fun (p, t) => p == pidOfLabel l && t.startsWith "cease")) then
       let inSet := ((c.memberLines.filter (·.1 == l)).map (·.2)).toArray.qsort (· < ·) |>.toList
       let alone := ((c.alone.filter (·.1 == pidOfLabel l)).map (·.2)).toArray.qsort (· < ·) |>.toList
       if inSet != alone then
@@ -263,8 +275,10 @@ structure RS where
   s : State
   cnt : List Nat := []                 -- watched traces emitted so far, per model member
   lab : List (String × Nat) := []      -- implementation label ↦ model member
-  frozen : Bool := false               -- `run` is parked inside an instantiation (enforced schedule)
+  frozen : Bool := false               -- the hook inside `StartWith` is held (enforced schedule)
+  parked : Bool := false               -- `run` has reached the held hook
   ceaseSets : Nat := 0
+  consumed : Array Bool := #[]         -- history items already replayed (pulled forward)
   fail : Option String := none
 
 structure Policy where
@@ -272,56 +286,68 @@ structure Policy where
   lazy : Bool              -- `run` handles a message only when the instantiated process shows up (or at the end)
 deriving Repr
 
+structure Env where
+  c : Case
+  cfg : Cfg
+  su : Setup
+  pol : Policy
+  items : Array Item
+
 def listGet (l : List Nat) (i : Nat) : Nat := (l[i]?).getD 0
 
-def runBlocked (su : Setup) (r : RS) : Bool :=
-  r.frozen && (match r.s.mch with
+/-- `run` is parked at the hook inside `StartWith` of an instantiation. When the watcher is registered before the start
+(`instAddBeforeStart`) the message has been taken and the member exists (registered, not started); otherwise `run`
+has not yet done anything the model can see, i.e. it is stuck in front of the message. -/
+def runBlocked (cfg : Cfg) (su : Setup) (r : RS) : Bool :=
+  r.frozen && (r.parked || (!cfg.instAddBeforeStart && (match r.s.mch with
     | id :: _ => (match su.target id with | some (.start _) => true | _ => false)
-    | [] => false)
+    | [] => false)))
 
 /-- eager internal steps, first enabled in a fixed priority, until nothing changes -/
-def settle (cfg : Cfg) (su : Setup) (pol : Policy) (final : Bool) (r : RS) : RS := Id.run do
+def settle (e : Env) (final : Bool) (r : RS) : RS := Id.run do
   let mut r := r
   for _ in [0:400] do
     let s := r.s
     let n := s.members.length
-    let runOk := !runBlocked su r && (!pol.lazy || final)
+    let runOk := !runBlocked e.cfg e.su r && (!e.pol.lazy || final)
     let cands : List Choice :=
-      ((List.range n).filter (fun i => listGet r.cnt i ≥ listGet pol.late i)).map .subscribe
+      ((List.range n).filter (fun i => listGet r.cnt i ≥ listGet e.pol.late i)).map .subscribe
       ++ (List.range n).map .watcher
       ++ (if runOk then [.runMsg] else [])
       ++ [.runRegister]
       ++ (List.range s.wakers.length).map .waker
       ++ (List.range s.waits.length).map .closer
-      ++ (if s.mch.isEmpty && !runBlocked su r then [.runDone] else [])
-    match cands.findSome? (fun c => next cfg su s c) with
-    | some s' => r := { r with s := s' }
+      ++ (if s.mch.isEmpty && !runBlocked e.cfg e.su r then [.runDone] else [])
+    match cands.findSome? (fun c => (next e.cfg e.su s c).map (fun s' => (c, s'))) with
+    | some (c, s') =>
+      let parks := r.frozen && c == Choice.runMsg && s'.members.length > s.members.length
+      r := { r with s := s', parked := r.parked || parks }
     | none => break
   return r
 
 def fresh (r : RS) (i : Nat) : Bool := !(r.lab.any (·.2 == i))
 
 /-- model member for an implementation label (run steps on demand under the lazy policy) -/
-def resolve (c : Case) (cfg : Cfg) (su : Setup) (r : RS) (label : String) : RS × Option Nat := Id.run do
+def resolve (e : Env) (r : RS) (label : String) : RS × Option Nat := Id.run do
   if let some (_, i) := r.lab.find? (·.1 == label) then return (r, some i)
   let pid := pidOfLabel label
-  if let some e := c.execPids.findIdx? (· == pid) then
-    if e < r.s.members.length && fresh r e then return ({ r with lab := r.lab ++ [(label, e)] }, some e)
+  if let some x := e.c.execPids.findIdx? (· == pid) then
+    if x < r.s.members.length && fresh r x then return ({ r with lab := r.lab ++ [(label, x)] }, some x)
     return (r, none)
-  let some w := c.waitPids.findIdx? (· == pid) | return (r, none)
+  let some w := e.c.waitPids.findIdx? (· == pid) | return (r, none)
   let pick (r : RS) : Option Nat :=
     (List.range r.s.members.length).find? (fun i =>
       fresh r i && (match (r.s.members[i]?).bind (·.origin) with
-        | some id => su.target id == some (.start w)
+        | some id => e.su.target id == some (.start w)
         | none => false))
   let mut r := r
   for _ in [0:20] do
     if let some i := pick r then return ({ r with lab := r.lab ++ [(label, i)] }, some i)
-    if runBlocked su r then return (r, none)
-    match next cfg su r.s .runRegister with
+    if runBlocked e.cfg e.su r then return (r, none)
+    match next e.cfg e.su r.s .runRegister with
     | some s' => r := { r with s := s' }
     | none =>
-      match next cfg su r.s .runMsg with
+      match next e.cfg e.su r.s .runMsg with
       | some s' => r := { r with s := s' }
       | none => return (r, none)
   return (r, none)
@@ -330,47 +356,85 @@ def bump (l : List Nat) (i : Nat) : List Nat :=
   let l := l ++ List.replicate (i + 1 - l.length) 0
   l.set i (listGet l i + 1)
 
+/-- the first not yet replayed throw after `pos` whose event satisfies `p` -/
+def findThrow (e : Env) (r : RS) (pos : Nat) (p : Nat → Bool) : Option (Nat × String) :=
+  (List.range e.items.size).findSome? (fun j =>
+    if j > pos && !(r.consumed[j]?).getD true then
+      match e.items[j]? with
+      | some (.trace l (some (.ev (.throw id)))) => if p id then some (j, l) else none
+      | _ => none
+    else none)
+
+mutual
+/-- The recorder sits behind one relay per member process: the order of traces of DIFFERENT members in the recording
+is not causal. When a member shows an effect whose cause (a throw of another member) is recorded later, that
+member's traces up to the throw are replayed first. -/
+partial def pull (e : Env) (r : RS) (pos : Nat) (p : Nat → Bool) (depth : Nat) : RS × Bool :=
+  match findThrow e r pos p with
+  | none => (r, false)
+  | some (j, l) => Id.run do
+    let mut r := r
+    for k in [pos + 1 : j + 1] do
+      if !(r.consumed[k]?).getD true then
+        match e.items[k]? with
+        | some (.trace l2 tr2) =>
+          if l2 == l then
+            r := doTrace e { r with consumed := r.consumed.set! k true } k l2 tr2 (depth + 1)
+        | _ => pure ()
+    return (r, true)
+
+partial def doTrace (e : Env) (r : RS) (pos : Nat) (label : String) (tr : Option Tr) (depth : Nat) : RS := Id.run do
+  if r.fail.isSome then return r
+  let mut (r, oi) := resolve e r label
+  if oi.isNone && depth < 4 then
+    if let some w := e.c.waitPids.findIdx? (· == pidOfLabel label) then
+      let (r2, ok) := pull e r pos (fun id => e.su.target id == some (.start w)) depth
+      if ok then
+        let (r3, oi3) := resolve e (settle e false r2) label
+        r := r3
+        oi := oi3
+  let some i := oi | return { r with fail := some s!"{label}: the model has no such member at this point" }
+  r := settle e false r
+  let some tr := tr | return r
+  let some m := r.s.members[i]? | return { r with fail := some "member index" }
+  if (next e.cfg e.su r.s (.proc i)).isNone && depth < 4 then
+    if let some cidx := m.blocked then
+      let (r2, ok) := pull e r pos (fun id => e.su.target id == some (.catch_ cidx)) depth
+      if ok then r := settle e false r2
+  let some m := r.s.members[i]? | return { r with fail := some "member index" }
+  let expect : Tr := match m.todo with | x :: _ => .ev x | [] => .cease
+  match next e.cfg e.su r.s (.proc i) with
+  | none =>
+    return { r with fail := some s!"{label} emitted a trace while the model has it {if m.ceased then "completed" else "waiting at its catch event"}" }
+  | some s' =>
+    if expect != tr then return { r with fail := some s!"{label}: stream mismatch" }
+    return settle e false { r with s := s', cnt := bump r.cnt i }
+end
+
 /-- replay the recorded history under one policy -/
 def replay (c : Case) (cfg : Cfg) (su : Setup) (pol : Policy) : RS := Id.run do
-  let mut r : RS := { s := init su }
+  let e : Env := { c, cfg, su, pol, items := c.items.toArray }
+  let mut r : RS := { s := init su, consumed := Array.replicate c.items.length false }
   let mut implPanic := false
+  let mut pos := 0
   for it in c.items do
+    let here := pos
+    pos := pos + 1
     if r.fail.isSome then break
+    if (r.consumed[here]?).getD false then continue
     match it with
     | .startAll =>
       for _ in su.execs do
         r := { r with s := step cfg su (step cfg su r.s .saStart) .saRegister }
-      r := settle cfg su pol false r
-    | .trace label tr =>
-      let (r', oi) := resolve c cfg su r label
-      r := r'
-      match oi with
-      | none => r := { r with fail := some s!"{label}: the model has no such member at this point" }
-      | some i =>
-        -- a registered, lazily created member's watcher
-        r := settle cfg su pol false r
-        match tr with
-        | none => pure ()
-        | some tr =>
-          match r.s.members[i]? with
-          | none => r := { r with fail := some "member index" }
-          | some m =>
-            let expect : Tr := match m.todo with | e :: _ => .ev e | [] => .cease
-            match next cfg su r.s (.proc i) with
-            | none =>
-              r := { r with fail := some s!"{label} emitted a trace while the model has it {if m.ceased then "completed" else "waiting at its catch event"}" }
-            | some s' =>
-              if expect != tr then r := { r with fail := some s!"{label}: stream mismatch" }
-              else
-                r := { r with s := s', cnt := bump r.cnt i }
-                r := settle cfg su pol false r
+      r := settle e false r
+    | .trace label tr => r := doTrace e r here label tr 0
     | .waitCall n =>
       if r.s.waits.length != n then r := { r with fail := some s!"wait numbering {n}" }
       else
         r := { r with s := step cfg su r.s .waitCall }
-        r := settle cfg su pol false r
+        r := settle e false r
     | .waitRet n b =>
-      r := settle cfg su pol false r
+      r := settle e false r
       if r.s.panicked then pure ()    -- the crash is matched at the `panic` item
       else if b then
         match next cfg su r.s (.waitReturn n) with
@@ -381,15 +445,25 @@ def replay (c : Case) (cfg : Cfg) (su : Setup) (pol : Policy) : RS := Id.run do
         else r := { r with s := step cfg su r.s (.waitTimeout n) }
     | .hold p => if p == "process.startwith.before_trigger" then r := { r with frozen := true }
     | .release p =>
-      if p == "process.startwith.before_trigger" then r := { r with frozen := false }
-      r := settle cfg su pol false r
+      if p == "process.startwith.before_trigger" then r := { r with frozen := false, parked := false }
+      r := settle e false r
     | .ceaseSet => r := { r with ceaseSets := r.ceaseSets + 1 }
     | .panic _ =>
       implPanic := true
-      r := settle cfg su pol false r
+      r := settle e false r
+      -- the crash loses the traces that were on their way to the recorder: a member whose recorded stream is
+      -- exhausted may have emitted its cease-flow trace
+      if !r.s.panicked then
+        for i in [0:r.s.members.length] do
+          match r.s.members[i]? with
+          | some m =>
+            if m.todo.isEmpty && !m.ceased && !r.s.panicked then
+              r := { r with s := step cfg su r.s (.proc i), cnt := bump r.cnt i }
+              r := settle e false r
+          | none => pure ()
       if !r.s.panicked then r := { r with fail := some "the process crashed; the model does not panic" }
   if r.fail.isSome then return r
-  r := settle cfg su pol true r
+  r := settle e true r
   if r.s.panicked != implPanic then
     return { r with fail := some s!"panic: model {r.s.panicked} implementation {implPanic}" }
   if !implPanic then
@@ -398,6 +472,11 @@ def replay (c : Case) (cfg : Cfg) (su : Setup) (pol : Policy) : RS := Id.run do
     let unmapped := (List.range r.s.members.length).filter (fresh r)
     if !unmapped.isEmpty then
       return { r with fail := some s!"the model instantiated {unmapped.length} process(es) the implementation did not" }
+    for (l, i) in r.lab do
+      let mw := (r.s.wakers.filter (fun wk => wk.member == i && wk.done)).length
+      let iw := (c.observed.filter (fun (_, l', _) => l' == l)).length
+      if mw != iw then
+        return { r with fail := some s!"{l}: woken {mw} time(s) in the model, {iw} time(s) in the implementation" }
   return r
 
 /-- lateness vectors: member `i` may be late by `0 … bound i`; ordered by total lateness (prompt first) -/
